@@ -1283,3 +1283,53 @@ M('C02-pitch-return-before-scaling', 'C02', SOUND,
   "            if context.protocol_earlier(204):\n                value /= 63.5\n            return value",
   "            return value\n            if context.protocol_earlier(204):\n                value /= 63.5",
   rule='R02.6')
+
+# wave 11: R20.8 (name_from_value folded over its finite domain)
+ENUMS = 'minecraft/networking/types/enum.py'
+M('C20-flag-name-uncovered-bits', 'C20', ENUMS,
+  "        if ret_value == value:\n            return '|'.join(reversed(ret_names)) if ret_names else '0'",
+  "        if ret_names:\n            return '|'.join(reversed(ret_names))\n        return '0' if value == 0 else None",
+  rule='R20.8')
+M('C20-flag-name-overlap-filter', 'C20', ENUMS,
+  "if isinstance(v, int) and n.isupper() and v | value == value],",
+  "if isinstance(v, int) and n.isupper() and v & value],", rule='R20.8')
+M('C20-enum-name-first-member', 'C20', ENUMS,
+  "            if name.isupper() and name_value == value:\n                return name",
+  "            if name.isupper() and name_value != value:\n                return name", rule='R20.8')
+M('C20-twin-flag-name-ascending', 'C20', ENUMS,
+  "            reverse=True, key=lambda p: p[1]\n        ):",
+  "            key=lambda p: p[1]\n        ):", expect='silent')
+
+# wave 11: the default version without an initial_version (R09.1 / R15.8)
+M('C09-default-latest-supported', 'C09', CONN,
+  "            self.default_proto_version = latest_allowed_proto\n",
+  "            self.default_proto_version = max(\n                SUPPORTED_PROTOCOL_VERSIONS, key=PROTOCOL_VERSION_INDICES.get)\n",
+  rule='R09.1')
+M('C15-default-latest-supported', 'C15', CONN,
+  "            self.default_proto_version = latest_allowed_proto\n",
+  "            self.default_proto_version = max(\n                SUPPORTED_PROTOCOL_VERSIONS, key=PROTOCOL_VERSION_INDICES.get)\n",
+  rule='R15.8')
+M('C09-twin-default-recomputed', 'C09', CONN,
+  "            self.default_proto_version = latest_allowed_proto\n",
+  "            self.default_proto_version = max(\n                self.allowed_proto_versions, key=PROTOCOL_VERSION_INDICES.get)\n",
+  expect='silent')
+
+# wave 11: R14.9 (a write-phase exception is never dropped)
+M('C14-deferred-error-only-with-budget', 'C14', CONN,
+  "            if exc_info is not None:\n                exc_value, exc_tb = exc_info[1:]",
+  "            if exc_info is not None and num_packets < 50:\n                exc_value, exc_tb = exc_info[1:]",
+  rule='R14.9')
+M('C14-deferred-error-cleared-by-any-packet', 'C14', CONN,
+  "                if exc_info is not None and packet.packet_name == \"disconnect\":\n                    exc_info = None",
+  "                if exc_info is not None:\n                    exc_info = None",
+  rule='R14.9')
+M('C14-twin-deferred-error-test-reordered', 'C14', CONN,
+  "                if exc_info is not None and packet.packet_name == \"disconnect\":\n                    exc_info = None",
+  "                if packet.packet_name == \"disconnect\":\n                    exc_info = None",
+  expect='silent')
+
+# wave 11: R05.9r (a reader does not decide by the truth of a decoded number)
+M('C05-face-player-read-by-truth', 'C05', FACE,
+  "            if not is_entity:\n", "            if not self.entity_id:\n", rule='R05.9r')
+M('C05-twin-face-player-read-by-none', 'C05', FACE,
+  "            if not is_entity:\n", "            if self.entity_id is None:\n", expect='silent')
